@@ -459,6 +459,35 @@ func harnesses(r *fw.Run) []fw.HarnessSpec {
 						c.Fail("unhashable-cell-hashed", "Cell.HashString of a chain of %d cells returns %q without error at attempt %d", d, str, round+1)
 					}
 				}
+				// a failed hash leaves nothing behind: every valid cell hashed next - through every entry point - gets
+				// its own hash (failure and success alternate, so state kept per process would meet the next cell)
+				small, _ := cell.New([]byte{0xC3, 0x50}, 13, nil, false)
+				two, _ := cell.New([]byte{0x99}, 8, []*cell.Cell{small}, false)
+				for round := 0; round < 8; round++ {
+					_, _ = t.Hash()
+					for vi, v := range []*cell.Cell{cell.MustNew(nil, 0, nil, false), small, two} {
+						tc, e := conv.ToTongo(v, true)
+						if e != nil {
+							continue
+						}
+						want := v.ReprHash()
+						var got []byte
+						switch (round + vi) % 3 {
+						case 0:
+							got, e = tc.Hash()
+						case 1:
+							got, e = tb.NewHasher().Hash(tc)
+						default:
+							var s string
+							s, e = tc.HashString()
+							got, _ = hex.DecodeString(s)
+						}
+						if e != nil || !bytes.Equal(got, want[:]) {
+							c.Fail("hash-after-failed-hash", "after a hash attempt on a chain of %d cells failed, a valid cell hashes to %x,%v, want %x (round %d)", d, got, e, want, round)
+							return
+						}
+					}
+				}
 				if err == nil {
 					c.Fail("depth-limit", "chain of %d cells hashed without error (depth limit 1024)", d)
 				} else if !errors.Is(err, tb.ErrDepthIsTooBig) {
